@@ -256,6 +256,9 @@ func judge(r *core.Run, items []item, res []string) {
 			got, ok := okTok(out)
 			r.Check(out != "panic", "deanonymize-panic", "Deanonymize panics")
 			if !ok {
+				if it.owner == -2 {
+					r.Fail("foreign-or-unknown-gets-token", fmt.Sprintf("detokenizing the unknown/foreign %s token %s returned %s instead of the token", it.ty, core.Hex(it.v), out))
+				}
 				continue
 			}
 			if want, known := valueOf[key{canon(it.ctx), it.ty, string(it.v)}]; known {
